@@ -1,13 +1,20 @@
 import Solvor.Lp.Lemmas
 import Solvor.Lp.MilpLemmas
+import Solvor.Lp.Certifies
 /-!
-Lp: property theorems of C03 (LP verdicts and optima).
+Lp: property theorems of C03 (LP verdicts and optima) and C04 (MILP).
 
-Layer T-spec: the certificate theorems (`weak_duality_cert`, `farkas_cert`, `ray_cert`,
-`verdict_unique`, `approx_duality`) over `Fin m → Fin n → ℚ`, and the soundness of the Bool
-checkers the driver evaluates on every explored input (`chkOptimal_sound`, `chkInfeasible_sound`,
-`chkUnbounded_sound`, `certifies_sound`, tolerance checkers `…_iff`).  With `verdict_unique`, one
-accepted certificate pins the verdict of that input: a status different from it is wrong.
+C03, layer T-spec: the certificate theorems (`weak_duality_cert`, `farkas_cert`, `ray_cert`,
+`verdict_unique`, `approx_duality`, `ipm_optimal_test_sound`) over `Fin m → Fin n → ℚ`, and the soundness
+of the Bool checkers the driver evaluates on every explored input (`chkOptimal_sound`,
+`chkInfeasible_sound`, `chkUnbounded_sound`, `certifies_sound`, tolerance checkers `…_iff`).  With
+`verdict_unique`, one accepted certificate pins the verdict of that input: a status different from it
+is wrong.  Layer T-model: `simplex_certifies_partial` (the mirror's certificate is valid on EVERY input
+that needs no phase 1; lemmas in `Certifies.lean`).
+
+C04: `isFeasible_iff`, `branch_covers`, `milpOracle_correct`, `binary_tightening_sound` and the abstract
+branch and bound (`bnb_invariant`, `bnb_optimal`, `bnb_infeasible`, `bnb_gap`,
+`heuristic_incumbent_feasible`).
 -/
 namespace Solvor.Lp
 open Finset
@@ -312,6 +319,37 @@ theorem residual_least {m n : ℕ} (Q : LPF m n) (x : Fin n → ℚ) (s : Fin m 
 
 end checkers
 
+/-! ### [S] `simplex_certifies`: the mirror emits a valid certificate on every input -/
+
+-- FULL STATEMENT (not proved):
+--   theorem simplex_certifies (c : Vec) (A : Mat) (b : Vec) (mn : Bool) (fuel : ℕ)
+--       (hA : ∀ i < b.length, (A.getD i []).length = c.length)
+--       (hst : (solveLp c A b mn 0 fuel).status ≠ .MAX_ITER) :
+--       certifies (mkLP c A b mn) (solveLp c A b mn 0 fuel) = true
+-- i.e. also for right-hand sides that need phase 1 (artificial columns, Farkas vector from the
+-- phase-1 objective row, drive-out, column removal, objective restoration).  The tableau invariant
+-- `Inv` of `Certifies.lean` (rows ∈ span of `[A I | b]` with the multipliers in the slack columns,
+-- basic columns unit vectors, same solution set, rhs ≥ 0) and its preservation by every Bland pivot
+-- (`inv_step`) are proved; what is missing is its extension over the artificial columns.
+
+/-- **[S, partial] simplex_certifies_partial**: for every LP with `b ≥ 0` (no phase 1) in exact
+arithmetic (`eps = 0`), every sense, every iteration budget: if the mirror of `solve_lp` stops with a
+verdict (`OPTIMAL` or `UNBOUNDED`, i.e. not `MAX_ITER`), the certificate it reads off the final
+tableau is accepted by the verified checker – so by `certifies_sound` the verdict is the true one,
+the returned vertex is optimal and the reported objective is the optimum. -/
+theorem simplex_certifies_partial (c : Vec) (A : Mat) (b : Vec) (mn : Bool) (fuel : ℕ)
+    (hA : ∀ i < b.length, (A.getD i []).length = c.length) (hb : ∀ i < b.length, 0 ≤ b.getD i 0)
+    (hst : (solveLp c A b mn 0 fuel).status ≠ .MAX_ITER) :
+    certifies (mkLP c A b mn) (solveLp c A b mn 0 fuel) = true ∧
+    (mkLP c A b mn).toF.Verdict (solveLp c A b mn 0 fuel).status :=
+  ⟨solveLp_certifies_nonneg c A b mn fuel hA hb hst,
+   certifies_sound _ _ (solveLp_certifies_nonneg c A b mn fuel hA hb hst)⟩
+
+/-- non-vacuity: `max 3x+2y, x+y ≤ 4, x ≤ 2, y ≤ 3` meets the hypotheses (and stops with OPTIMAL) -/
+example : (solveLp [3, 2] [[1, 1], [1, 0], [0, 1]] [4, 2, 3] false 0 100).status ≠ .MAX_ITER ∧
+    (∀ i < 3, (([[1, 1], [1, 0], [0, 1]] : Mat).getD i []).length = 2) ∧
+    (∀ i < 3, (0 : ℚ) ≤ ([4, 2, 3] : Vec).getD i 0) := by decide +kernel
+
 /-! ## C04 — MILP -/
 section milp
 
@@ -479,6 +517,62 @@ example : oracleOk exactSolve ⟨[[2, 2]], [3], [-1, -1]⟩ [0, 1] [1, 1] [[1 / 
 /-- The relaxation's Farkas certificate already settles `INFEASIBLE` for the MILP. -/
 theorem relaxation_infeasible {m n : ℕ} (Q : LPF m n) (I : Fin n → Prop) (h : Q.Infeasible) :
     ∀ x, ¬ Q.MilpFeasible I x := fun x hx => h x hx.1
+
+/-- **[S] binary_tightening_sound**: for integer data and `0 < eps < 1` (the property's quantifier;
+`eps = 1e-6` in the code), whenever `_detect_binary` fires – every integer variable has an explicit
+row `x_j ≤ 1` – every integer-feasible point has `x_j ≤ 1` on the integer variables, so tightening
+their upper bounds to `1` (lines 132-135) drops no integer-feasible point. -/
+theorem binary_tightening_sound (P : LP) (ints : List ℕ) (eps : ℚ) (heps : eps < 1)
+    (hA : ∀ i j, ∃ z : ℤ, P.a i j = z) (hb : ∀ i, ∃ z : ℤ, vget P.b i = z)
+    (hdet : detectBinary P ints eps = true) :
+    ∀ x, P.toF.MilpFeasible (intSet P.n ints) x → ∀ j, intSet P.n ints j → x j ≤ 1 := by
+  unfold detectBinary at hdet
+  rw [Bool.and_eq_true, decide_eq_true_eq, decide_eq_true_eq] at hdet
+  obtain ⟨hlen, _⟩ := hdet
+  -- the set of bounded variables is the set of integer variables
+  have hsub : (boundedVars P ints eps).eraseDups ⊆ ints := by
+    intro j hj
+    rw [List.mem_eraseDups] at hj
+    obtain ⟨_, _, _, _, hji, _⟩ := boundedVars_spec P ints eps j hj
+    exact hji
+  have hperm := (List.subperm_of_subset (nodup_eraseDups _ _ (le_refl _)) hsub).perm_of_length_le
+    (by rw [hlen])
+  intro x hx j hj
+  have hjb : j.val ∈ boundedVars P ints eps := by
+    rw [← List.mem_eraseDups]; exact hperm.mem_iff.mpr hj
+  obtain ⟨i, hi, hbi, hnz, _, hco⟩ := boundedVars_spec P ints eps j.val hjb
+  -- the row is `e_j`, its right-hand side is 1
+  have hb1 : vget P.b i = 1 := by
+    have := int_of_abs_le (q := vget P.b i - 1)
+      (by obtain ⟨z, hz⟩ := hb i; exact ⟨z - 1, by rw [hz]; push_cast; ring⟩) hbi heps
+    linarith
+  have ha1 : P.a i j.val = 1 := by
+    have := int_of_abs_le (q := P.a i j.val - 1)
+      (by obtain ⟨z, hz⟩ := hA i j.val; exact ⟨z - 1, by rw [hz]; push_cast; ring⟩) hco.le heps
+    linarith
+  have ha0 : ∀ j' : Fin P.n, j' ≠ j → P.a i j'.val = 0 := by
+    intro j' hne
+    have hnot : j'.val ∉ rowNz P eps i := by
+      rw [hnz, List.mem_singleton]; exact fun e => hne (Fin.ext e)
+    unfold rowNz at hnot
+    rw [List.mem_filter, List.mem_range, decide_eq_true_eq, absR_eq] at hnot
+    have : |P.a i j'.val| ≤ eps := not_lt.mp (fun h => hnot ⟨j'.isLt, h⟩)
+    exact int_of_abs_le (hA i j'.val) this heps
+  have hrow := hx.1.2 ⟨i, hi⟩
+  have hsum : ∑ j' : Fin P.n, P.toF.A ⟨i, hi⟩ j' * x j' = x j := by
+    rw [Finset.sum_eq_single j]
+    · show P.a i j.val * x j = x j
+      rw [ha1, one_mul]
+    · intro j' _ hne
+      show P.a i j'.val * x j' = 0
+      rw [ha0 j' hne, zero_mul]
+    · intro h; exact absurd (Finset.mem_univ _) h
+  rw [hsum] at hrow
+  have : P.toF.b ⟨i, hi⟩ = 1 := hb1
+  linarith
+
+example : detectBinary ⟨[[3, 5], [1, 0], [0, 1]], [8, 1, 1], [1, 1]⟩ [0, 1] (1 / 1000000) = true := by
+  decide +kernel
 
 /-! ### abstract branch and bound -/
 section bnb
